@@ -296,6 +296,12 @@ class Outcome:
         for f_ in load_findings():
             if f_['id'] in self.known_hits:
                 print('KNOWN-FINDING: property=%s %s (%s; %d case(s) this run)' % (self.prop, f_['what'], f_['id'], self.known_hits[f_['id']]))
+        bysig = {}
+        for path, sig in self.violations:
+            k = json.dumps(sig, sort_keys=True, default=str)
+            bysig[k] = bysig.get(k, 0) + 1
+        for k, n in sorted(bysig.items(), key=lambda kv: -kv[1])[:12]:
+            print('  violations with signature %s: %d' % (k, n))
         seen = set()
         for path, sig in self.violations:
             if path in seen:
